@@ -35,6 +35,7 @@ func checkC09(p *Prog, r *Report) {
 	// effective and photoperiodic day length feed assimilation and development
 	solarClamps(p, r, "C09.R10")
 	c09HeaderCO2(p, r)
+	c09StressMeans(p, r)
 	r.Note("not decided: finiteness and non-negativity of masses over whole growing seasons (multi-day state), phenology in calendar terms, anything about shipped parameter values")
 }
 
@@ -792,5 +793,59 @@ func c09HeaderCO2(p *Prog, r *Report) {
 	}
 	if n == 0 {
 		r.Ob("co2:header-not-placeholder", "-", false, "no reader stores a CO2 concentration from the weather header")
+	}
+}
+
+// ---------------------------------------------------------------- the season means of the stress factors stay in [0,1]
+
+// c09StressMeans: the crop record reports the season means of the two stress factors as (daily sum)/(number of days).
+// The sums grow by one factor ≤ 1 per day from emergence on, so the mean stays ≤ 1 exactly when the divisor is at
+// least the number of accumulation days.  The difference of the two ABSOLUTE day numbers harvest − sowing is such a
+// divisor for every year; a count reconstructed from days of the year (with a +365 wrap) is one short across the
+// end of a leap year.  Demanded: the divisor of both means is harvest date − sowing date of the current entry.
+func c09StressMeans(p *Prog, r *Report) {
+	r.Rule("C09.R12", "season means of the stress factors in the crop record: each is its daily sum divided by (harvest date − sowing date) of the current rotation entry, both absolute day numbers — a divisor that cannot be smaller than the number of days the sum grew", 2)
+	x := walked(p, "hermes.Nitro")
+	if x == nil {
+		r.Ob("stress-mean", "-", false, "hermes.Nitro not found")
+		return
+	}
+	n := 0
+	for _, it := range []struct{ field, sum string }{{"Reduk", "GlobalVarsMain.REDUKSUM"}, {"TRRel", "GlobalVarsMain.TRRELSUM"}} {
+		for _, e := range x.Events {
+			if e.Kind != "assign" || !strings.HasSuffix(e.Root, "."+it.field) || !e.Val.MentionsRoot(it.sum) {
+				continue
+			}
+			n++
+			v := stripVersions(e.Val)
+			t := v.single()
+			ok := false
+			if t != nil && t.C.Cmp(ratInt(1)) == 0 && len(t.M) == 2 {
+				var div *Poly
+				hasSum := false
+				for _, f := range t.M {
+					if f.A.Root == it.sum && f.E == 1 {
+						hasSum = true
+					}
+					if f.E == -1 && len(f.A.Args) == 1 {
+						d := f.A.Args[0]
+						div = &d
+					}
+				}
+				if hasSum && div != nil {
+					d := stripVersions(*div)
+					ok = d.MentionsRoot("GlobalVarsMain.ERNTE") && d.MentionsRoot("GlobalVarsMain.SAAT") && len(d.sortedTerms()) == 2
+					for _, dt := range d.sortedTerms() {
+						if len(dt.M) != 1 || dt.M[0].E != 1 || (dt.M[0].A.Root != "GlobalVarsMain.ERNTE" && dt.M[0].A.Root != "GlobalVarsMain.SAAT") {
+							ok = false
+						}
+					}
+				}
+			}
+			r.Ob("stress-mean:"+it.field, p.Pos(e.Pos), ok, fmt.Sprintf("%s = %s (must be %s / (harvest date − sowing date))", it.field, clip(v.String(), 160), shortRoot(it.sum)))
+		}
+	}
+	if n == 0 {
+		r.Ob("stress-mean", "-", false, "the season means of the stress factors are not stored into the crop record in the nitrogen routine")
 	}
 }
